@@ -29,9 +29,27 @@ def stmt_call_free(s):
     return False
 
 def assigned_vars(prog):
+    """variables that are assigned, or lent by mutable reference (neither may become `const`)"""
     out = set()
+    pts = [[t for _, t in f["params"]] for f in prog]
+    def we(e):
+        if not isinstance(e, (list, tuple)) or not e: return
+        if e[0] == "call":
+            for i, a in enumerate(e[2]):
+                if 0 <= e[1] < len(pts) and i < len(pts[e[1]]) and core.is_mutref(pts[e[1]][i]) and a[0] == "var": out.add(a[1])
+                we(a)
+        elif e[0] == "bin": we(e[2]); we(e[3])
+        elif e[0] == "un": we(e[2])
+        elif e[0] in ("cast", "field"): we(e[1])
+        elif e[0] == "slit":
+            for a in e[2]: we(a)
     def wb(b):
         for s in b:
+            for part in s[1:]:
+                if isinstance(part, (list, tuple)) and part and isinstance(part[0], str): we(part)
+                elif isinstance(part, (list, tuple)):
+                    for q in part:
+                        if isinstance(q, (list, tuple)) and q and isinstance(q[0], str) and q[0] in ("call", "bin", "un", "cast", "field", "slit", "var", "lit", "bool"): we(q)
             if s[0] in ("assign", "cassign", "inc", "assignf", "cassignf"): out.add(s[1])
             elif s[0] == "if": wb(s[2]); wb(s[3])
             elif s[0] == "while": wb(s[2])
